@@ -64,8 +64,34 @@ type Sched struct {
 
 var cur atomic.Pointer[Sched]
 
+// poisoned: the run is over and its wind-down did not finish (code under test that never returns
+// while a polling goroutine keeps the fake clock moving, so the bubble can neither finish nor
+// deadlock). Every goroutine other than the driver then exits at its next hook, deferred calls
+// included; what remains is durably blocked and ends the bubble through synctest's deadlock panic.
+var (
+	poisoned     atomic.Bool
+	poisonDriver atomic.Uint64
+)
+
+// Poison makes every hook terminate its goroutine (runtime.Goexit). Cleared by the next Install.
+func Poison() {
+	if s := cur.Load(); s != nil {
+		poisonDriver.Store(s.driver)
+	} else {
+		poisonDriver.Store(goid())
+	}
+	poisoned.Store(true)
+}
+
+func poisonCheck() {
+	if poisoned.Load() && goid() != poisonDriver.Load() {
+		runtime.Goexit()
+	}
+}
+
 // Install makes s the active scheduler. The calling goroutine becomes the driver.
 func Install(p Policy) *Sched {
+	poisoned.Store(false)
 	s := &Sched{
 		byGoid:  map[uint64]*G{},
 		parked:  map[string]*G{},
@@ -258,6 +284,7 @@ func Observe() {
 
 // Yield is the scheduling point placed before (and after) every instrumented operation.
 func Yield(site string) {
+	poisonCheck()
 	s := cur.Load()
 	if s == nil || s.free.Load() {
 		return
